@@ -285,9 +285,19 @@ def oracle(c, obs, K, stats=None):
             paid = [psp_bal[0] - sp_bal[0], psp_bal[1] - sp_bal[1]]
             if got != want or paid != want:
                 viol(n, "collect_spread_amount", "collect of %s paid %s (account moved %s) but the claimable query said %s" % (rop.get("ids"), got, paid, want), op=k)
-            for i in (rop.get("ids") or []):
-                if i in pos and pos[i]["cs"] != (0, 0):
-                    viol(n, "collect_not_reset", "position %d still claims %s right after collecting" % (i, pos[i]["cs"]), op=k)
+            # right after the message a collected position claims nothing again - except for its share of the forfeited dust of the
+            # collects of this message: on a pool whose spread accumulator is not scaled every collect re-deposits its dust (< 1 unit,
+            # AddToAccumulator(dust / total shares)), which accrues to the positions in range incl. the ones just collected; n collects
+            # re-deposit < n units in total, so a collected in-range position may claim up to n - 1 units again, never more
+            # (claim formula: trunc(MulDec(growth inside since the new snapshot, shares)); Coq: stage_claim in C08/Paid.v)
+            ids_m = rop.get("ids") or []
+            for i in ids_m:
+                if i in pos:
+                    inr = pos[i]["lo"] <= st["tick"] < pos[i]["hi"]
+                    bound = (len(ids_m) - 1) if (inr and not c.get("spread_scaled")) else 0
+                    if pos[i]["cs"] is None or max(pos[i]["cs"]) > bound or min(pos[i]["cs"]) < 0:
+                        viol(n, "collect_not_reset", "position %d still claims %s right after a collect of %d positions (at most %d per denom can come from re-deposited dust)"
+                             % (i, pos[i]["cs"], len(ids_m), bound), op=k)
         if ok and k == "collect_inc":
             want, wforf = [0, 0], [0, 0]
             seen = set()
@@ -476,7 +486,7 @@ def correspond(tier, seed, model_ok):
     out = Outcome()
     K = _cl.consts()
     r = Rng(seed)
-    n, nops = (72, 30) if tier == "quick" else (2400, 60)
+    n, nops = (72, 30) if tier == "quick" else (1500, 50)
     cases = [gen_case(r.fork(i), nops if not r.chance(1, 10) else nops // 3, K) for i in range(n)]
     corpus = common.load_corpus(PROP)
     pairs = run_cases(corpus + cases, model_ok, out, "q", K, selft=True)
